@@ -8,6 +8,7 @@ are listed in the evidence).
 from __future__ import annotations
 
 import inspect
+from pyvc.extract import REPO_PKG as _REPO_PKG
 import types
 
 from pyvc.frame import check_frame
@@ -26,6 +27,10 @@ JUSTIFIED = {
     'evaluate__format_number': [('prefix +=', 'prefix/suffix are str values: += rebinds the local name'),
                                 ('suffix +=', 'prefix/suffix are str values: += rebinds the local name'),
                                 ('fmt_tokens', 'fmt_tokens is the fresh list returned by str.split / re.split on a str')],
+    'serialize_to_xml': [('cks[0] =', 'cks is the new list returned by ElementTree.tostringlist in this call')],
+    'serialize_to_json': [('chunks[0] =', 'chunks is the new list returned by ElementTree.tostringlist in this call'),
+                          ('self[None] = None', 'self is the MapEncodingDict under construction (__init__ of the local class)'),
+                          ('self._items = items', 'self is the MapEncodingDict under construction (__init__ of the local class)')],
 }
 
 
@@ -45,7 +50,7 @@ def token_methods(attrs=('evaluate', 'select', '__call__', 'cast', 'select_with_
                         g = unwrap(f)
                     except ExtractError:
                         continue
-                    if id(g.__code__) in seen or not g.__code__.co_filename.startswith('/repo/elementpath'):
+                    if id(g.__code__) in seen or not g.__code__.co_filename.startswith(_REPO_PKG):
                         continue
                     seen.add(id(g.__code__))
                     out.append(g)
